@@ -63,7 +63,19 @@ func c14siteAtLine100000(l slog.Logger) []site { s := here(); l.Info(cm, "a", 1)
 //line c14virtual.go:1000000
 func c14siteAtLine1000000(l slog.Logger) []site { s := here(); l.Info(cm, "a", 1); return s }
 
-//line c14lines.go:67
+// Call sites whose FILE NAMES need escaping wherever a record quotes them: a quotation mark, backslashes (a Windows
+// build path), letters outside ASCII.
+
+//line c14"quoted"virtual.go:7
+func c14siteQuotedFile(l slog.Logger) []site { s := here(); l.Info(cm, "a", 1); return s }
+
+//line C:\work\app\c14node.go:42
+func c14siteBackslashFile(l slog.Logger) []site { s := here(); l.Info(cm, "a", 1); return s }
+
+//line c14-ünï-файл.go:9
+func c14siteTabFile(l slog.Logger) []site { s := here(); l.Info(cm, "a", 1); return s }
+
+//line c14lines.go:79
 func c14lineEntries() []c14entry {
 	return []c14entry{
 		{"Info at line 1", "native", func(l slog.Logger, _ *stdslog.Logger, _ *stdlog.Logger, c context.Context) []site { return c14siteAtLine1(l) }, 0},
@@ -83,6 +95,9 @@ func c14lineEntries() []c14entry {
 		{"Info at line 99999", "native", func(l slog.Logger, _ *stdslog.Logger, _ *stdlog.Logger, c context.Context) []site { return c14siteAtLine99999(l) }, 0},
 		{"Info at line 100000", "native", func(l slog.Logger, _ *stdslog.Logger, _ *stdlog.Logger, c context.Context) []site { return c14siteAtLine100000(l) }, 0},
 		{"Info at line 1000000", "native", func(l slog.Logger, _ *stdslog.Logger, _ *stdlog.Logger, c context.Context) []site { return c14siteAtLine1000000(l) }, 0},
+		{"Info in a file whose name holds quotation marks", "native", func(l slog.Logger, _ *stdslog.Logger, _ *stdlog.Logger, c context.Context) []site { return c14siteQuotedFile(l) }, 0},
+		{"Info in a file whose name holds backslashes", "native", func(l slog.Logger, _ *stdslog.Logger, _ *stdlog.Logger, c context.Context) []site { return c14siteBackslashFile(l) }, 0},
+		{"Info in a file whose name holds letters outside ASCII", "native", func(l slog.Logger, _ *stdslog.Logger, _ *stdlog.Logger, c context.Context) []site { return c14siteTabFile(l) }, 0},
 	}
 }
 
